@@ -47,7 +47,7 @@ func (b *vBackend) last() uint64 {
 func VerifC18Sync() {
 	leaderRev := zzverif.U64("leaderRev")
 	zzverif.Assume(leaderRev > 0)
-	mode := zzverif.Choose("answer", 4)
+	mode := zzverif.Choose("answer", 5)
 	requests := 0
 	zzverif.SetHTTPHandler(func(url string) zzverif.HTTPResult {
 		requests++
@@ -59,6 +59,9 @@ func VerifC18Sync() {
 			return zzverif.HTTPResult{Unreachable: true}
 		case 3:
 			return zzverif.HTTPResult{Status: 200, Body: body, BodyCut: true}
+		case 4:
+			// something else than the leader answers on that address (a proxy's page, another service)
+			return zzverif.HTTPResult{Status: 200, Body: []byte("<html>not a revision</html>")}
 		}
 		return zzverif.HTTPResult{Status: 200, Body: body}
 	})
